@@ -4,7 +4,13 @@
 //!          (read back with BufRead::lines, real clean + normalize) — oracle field,
 //!          re-derived by `canon`; ntok: special tokens of the tokenizer built from
 //!          the table; tests: strings for the round trip
-//! output = (table toks vsize vocab t2i)
+//! output = (table toks vsize vocab t2i trace)
+//!          trace = (vocab stats steps): observed through the `verif` hook of train_bpe
+//!          (text_utils::verif::BpeObserver): the vocabulary in the index order the code
+//!          built it, the initial pair statistics, and per merge (first second vocab stats)
+//!          = the chosen pair and the vocabulary / statistics after update_stats.
+//!          vocab = ((word count) …), word = list of tokens; stats = (((first second) freq
+//!          ((idx occ) …)) …) sorted by pair, counters sorted by word index.
 //! Every training runs in a child process (`c19 train-child …`): train_bpe installs
 //! a process-wide panic hook that prints to stdout and leaves worker threads behind.
 use std::io::{BufRead, Write};
@@ -434,6 +440,12 @@ impl Prop for C19 {
                     let Ok(ops) = MergeOps::load(&of) else {
                         return Val::L(vec![Val::I(-776)]);
                     };
+                    // the trace the child wrote next to the table (absent / unreadable = no trace:
+                    // the correspondence relation then fails)
+                    let trace = std::fs::read_to_string(trace_path(&of))
+                        .ok()
+                        .and_then(|s| Val::parse(s.trim()))
+                        .unwrap_or_else(|| Val::L(vec![]));
                     let mut table: Vec<(u32, Vec<u8>)> = ops.iter().map(|(b, i)| (*i, b.clone())).collect();
                     table.sort();
                     let tv = Val::list(table.iter(), |(i, b)| Val::L(vec![Val::I(*i as i64), Val::bytes(b)]));
@@ -461,7 +473,7 @@ impl Prop for C19 {
                         Ok(s) => Val::opt(tok.token_to_id(s), |i| Val::I(i as i64)),
                         Err(_) => Val::none(),
                     });
-                    Val::L(vec![tv, toks, vsize, vocab, t2i])
+                    Val::L(vec![tv, toks, vsize, vocab, t2i, trace])
                 })
             }
             Some(-778) => Val::hang(),
@@ -480,6 +492,11 @@ impl Prop for C19 {
             }
             if n >= 20 {
                 tags.push("long".into());
+            }
+            if let Some(steps) = out.nth(5).and_then(|t| t.nth(2)).and_then(|t| t.as_l()) {
+                tags.push(if steps.len() == n { "traced".into() } else { "trace-mismatch".into() });
+            } else {
+                tags.push("untraced".into());
             }
         }
         tags.push(format!("threads{}", p.threads));
@@ -509,6 +526,52 @@ impl Prop for C19 {
     }
 }
 
+fn trace_path(out: &Path) -> PathBuf {
+    out.with_extension("trace")
+}
+
+fn vocab_val(vocab: &[(Vec<Vec<u8>>, usize)]) -> Val {
+    Val::list(vocab.iter(), |(w, k)| Val::L(vec![Val::list(w.iter(), |t| Val::bytes(t)), Val::u(*k)]))
+}
+
+fn stats_val(stats: &text_utils::verif::BpeStatsView) -> Val {
+    Val::list(stats.iter(), |((a, b), f, ws)| {
+        Val::L(vec![
+            Val::L(vec![Val::bytes(a), Val::bytes(b)]),
+            Val::u(*f),
+            Val::list(ws.iter(), |(i, o)| Val::L(vec![Val::u(*i), Val::u(*o)])),
+        ])
+    })
+}
+
+/// records what train_bpe reports through the hook: (vocab stats steps)
+#[derive(Default)]
+struct TraceObs {
+    init: std::sync::Mutex<Option<(Val, Val)>>,
+    steps: std::sync::Mutex<Vec<Val>>,
+}
+
+impl text_utils::verif::BpeObserver for TraceObs {
+    fn init(&self, vocab: &[(Vec<Vec<u8>>, usize)], stats: text_utils::verif::BpeStatsView) {
+        *self.init.lock().unwrap() = Some((vocab_val(vocab), stats_val(&stats)));
+    }
+    fn merge(
+        &self,
+        merge_idx: usize,
+        first: &[u8],
+        second: &[u8],
+        vocab: &[(Vec<Vec<u8>>, usize)],
+        stats: text_utils::verif::BpeStatsView,
+    ) {
+        let mut steps = self.steps.lock().unwrap();
+        // merges are reported in order, one per merge index
+        if steps.len() != merge_idx {
+            steps.push(Val::L(vec![Val::I(-771)]));
+        }
+        steps.push(Val::L(vec![Val::bytes(first), Val::bytes(second), vocab_val(vocab), stats_val(&stats)]));
+    }
+}
+
 fn train_child(args: &[String]) -> i32 {
     // args: vocab nspecial norm threads maxlines out files…
     let vocab: usize = args[0].parse().unwrap();
@@ -518,8 +581,22 @@ fn train_child(args: &[String]) -> i32 {
     let maxlines: Option<usize> = args[4].parse().ok();
     let out = PathBuf::from(&args[5]);
     let files: Vec<PathBuf> = args[6..].iter().map(PathBuf::from).collect();
-    match train_bpe(&files, vocab, nspecial, &out, maxlines, norm, threads, false) {
-        Ok(()) => 0,
+    let obs = std::sync::Arc::new(TraceObs::default());
+    text_utils::verif::install_bpe_observer(Some(obs.clone()));
+    let res = train_bpe(&files, vocab, nspecial, &out, maxlines, norm, threads, false);
+    text_utils::verif::install_bpe_observer(None);
+    match res {
+        Ok(()) => {
+            let init = obs.init.lock().unwrap().take();
+            let steps = std::mem::take(&mut *obs.steps.lock().unwrap());
+            if let Some((v, st)) = init {
+                let t = Val::L(vec![v, st, Val::L(steps)]);
+                if std::fs::write(trace_path(&out), t.to_sexp()).is_err() {
+                    return 4;
+                }
+            }
+            0
+        }
         Err(_) => 3,
     }
 }
